@@ -167,6 +167,86 @@ def harness_namespace():
 
 
 # ---------------------------------------------------------------------------
+# E1: exact expectation values on circuits whose angles are symbolic
+
+
+def _w_exact_sym(res, p):
+    """calculate_exact_expectation_values on a task list whose circuits have symbolic angles: result i is <psi_i|O_i|psi_i> for
+    ALL angles, whatever the shot numbers of the tasks; constant-operator tasks yield their constant. Same device as C04: the
+    sparse matrix comes from the real get_sparse_operator, only its mat-vec is dense."""
+    from . import c04
+    from .. import circ as CS
+    from ..front import install_numpy_sympy_shim, Refuse
+    from ..solve import Prover, first_violation
+    from orquestra.quantum.api.estimation import EstimationTask
+    from orquestra.quantum.estimation import calculate_exact_expectation_values
+    from orquestra.quantum.runners.symbolic_simulator import SymbolicSimulator
+
+    install_numpy_sympy_shim()
+    res.nontrivial()
+    res.d["cuts"] += c04.SYM_STUBS[:1]
+    tasks, meta = [], []
+    for spec, n, terms, shots in p["tasks"]:
+        c = CS.circuit_from_spec([tuple(x) for x in spec], n)
+        tt = [(t[0], [tuple(f) for f in t[1]]) for t in terms]
+        tasks.append(EstimationTask(c04.op_from_terms(tt), c, shots))
+        meta.append((c, n, tt))
+    try:
+        with c04._sym_patches():
+            out = calculate_exact_expectation_values(SymbolicSimulator(), tasks)
+    except Refuse as e:
+        res.ob(1)
+        res.inconc(f"translation refused: {e}")
+        return
+    res.ob(1)
+    if len(out) != len(tasks) or any(len(o.values) != 1 for o in out):
+        res.candidate("exact-sym", f"{p['label']}: {len(out)} results / value shapes {[len(o.values) for o in out]} for {len(tasks)} tasks", dict(p, clause="exact-sym", values={}), sub="shape")
+        return
+    res.ob(0, 1, "concrete-structure")
+    P = Prover(res)
+
+    def build(F):
+        outl = []
+        for i, ((c, n, tt), o) in enumerate(zip(meta, out)):
+            psi = c04.oracle_state(F, c.operations, n)
+            outl.append((f"task{i}", F.alg.sub(c04.tr(F, o.values[0]), c04.oracle_expectation(F, psi, tt, n))))
+        return outl
+
+    try:
+        fv = first_violation(P.prove_zero("exact-sym", build, "exact-sym", sub="exact-sym"))
+    except Refuse as e:
+        res.inconc(f"translation refused: {e}")
+        return
+    if fv:
+        res.candidate("exact-sym", f"{p['label']}: exact value of {fv[0]} differs from <psi|O|psi>", dict(p, clause="exact-sym", values=fv[1]), sub="exact-sym")
+    res.sample({"exact values, symbolic angles": p["label"]})
+
+
+def exact_sym_replay(p, vals):
+    from .. import circ as CS, pauli as PL
+    from orquestra.quantum.api.estimation import EstimationTask
+    from orquestra.quantum.estimation import calculate_exact_expectation_values
+    from orquestra.quantum.operators import PauliTerm, PauliSum
+    from orquestra.quantum.runners.symbolic_simulator import SymbolicSimulator
+    import sympy
+
+    tasks, want = [], []
+    for spec, n, terms, shots in p["tasks"]:
+        c = CS.circuit_from_spec([tuple(x) for x in spec], n)
+        c = c.bind({s: float(vals.get(str(s), 0.37)) for s in c.free_symbols})
+        op = PauliSum([PauliTerm({int(q): l for q, l in fs}, cf) for cf, fs in terms])
+        tasks.append(EstimationTask(op, c, shots))
+        U = CS.np_oracle_unitary(c.operations, c.n_qubits, {})
+        psi = U[:, 0]
+        want.append((psi.conj() @ PL.dense(PL.cmap_of(op), c.n_qubits) @ psi).real)
+    got = calculate_exact_expectation_values(SymbolicSimulator(), tasks)
+    if len(got) != len(tasks):
+        return True, f"{len(got)} results for {len(tasks)} tasks"
+    d = max(abs(complex(g.values[0]) - w) for g, w in zip(got, want))
+    return d > 1e-7, f"max deviation {d:.3g} from the quadratic forms at {vals}"
+
+
+# ---------------------------------------------------------------------------
 # E2: constants symbolic
 
 
@@ -374,6 +454,9 @@ def work(item):
 
             _w_freq(res, p)
             return res.as_dict()
+        if kind == "exact-sym":
+            _w_exact_sym(res, p)
+            return res.as_dict()
         if kind == "const":
             from .. import symtrace as ST
 
@@ -447,6 +530,17 @@ def run(ctx):
             if ct and len(kl) > 2 and ctx.tier == "quick":
                 continue
             items.append(("const", {"kinds": kl, "complex_typed": ct, "label": f"task kinds {kl}{' (complex-typed constants)' if ct else ''}"}))
+    # E1: exact values on symbolic circuits, task lists mixing shot numbers and constant operators
+    ry2 = [["RY(t0)", [0]], ["RY(t1)", [1]], ["CNOT", [1, 0]], ["RX(u)", [1]]]
+    ry1 = [["RY(t0)", [0]], ["RX(u)", [0]]]
+    opA = [[1.0, [[0, "Z"]]], [0.5, [[0, "X"], [1, "Y"]]], [2.0, []]]
+    opB = [[-1.5, [[1, "Z"]]], [0.25, [[0, "Y"]]]]
+    opC = [[-3.25, []]]
+    items.append(("exact-sym", {"tasks": [[ry2, 2, opA, None], [ry2, 2, opC, 4], [ry2, 2, opB, 0], [ry1, 1, [[1.0, [[0, "Y"]]]], 1], [ry2, 2, opA, 100]], "label": "5 tasks: shots None/4/0/1/100, constant operator in the middle"}))
+    items.append(("exact-sym", {"tasks": [[ry1, 1, [[2.0, [[0, "Z"]]], [1.0, [[0, "X"]]]], 0]], "label": "one zero-shot task"}))
+    if ctx.tier == "thorough":
+        ry3 = [["RY(t0)", [0]], ["RY(t1)", [1]], ["RY(t2)", [2]], ["CNOT", [2, 0]], ["RX(u)", [1]]]
+        items.append(("exact-sym", {"tasks": [[ry3, 3, [[1.0, [[0, "Z"], [2, "Z"]]], [0.5, [[1, "X"]]]], 0], [ry3, 3, [[1.0, [[2, "Y"], [0, "X"]]]], None], [ry3, 3, opC, 0]], "label": "3 tasks on 3 qubits"}))
     for bits in ([1, 0], [0, 1, 1], [1, 1, 0, 1], [0, 0]):
         terms = [[[0], 2.0], [[0, len(bits) - 1], -0.5], [[len(bits) - 1], 1.25]]
         for shots in (1, 5, 40):
@@ -469,7 +563,7 @@ def run(ctx):
         "e2": "all shots on one basis state of width <= 3 with a symbolic shot count n >= 1; task lists of <= 4 (thorough 5) tasks over the kinds constant term / constant one-term sum / constant with zero shots / non-constant zero-shot / measurable, every constant a symbolic real in [-8, 8]",
         "ground": "full pipeline on SymbolicSimulator for 4 basis states x 3 shot counts; exact expectation vs dense quadratic form for 3 circuits",
     }
-    ctx.assume("runner and measurement objects are tagging stubs in the CrossHair harness", "calculate_exact_expectation_values goes through scipy.sparse: ground instances only")
+    ctx.assume("runner and measurement objects are tagging stubs in the CrossHair harness", "calculate_exact_expectation_values on symbolic circuits: the scipy matrix is the one the real get_sparse_operator returns, only its mat-vec is the dense product (same stub as C04); the fully numeric pipeline is a ground instance")
     ctx.extra["explanation"] = (
         "estimate_expectation_values_by_averaging, split_estimation_tasks_to_measure and evaluate_estimation_circuits are explored by CrossHair over every kind vector of <= 4 tasks: "
         "result i carries task i's tag/constant/zero, the runner sees exactly the measurable tasks in order; basis-state exactness is proved for a symbolic shot count."
@@ -492,6 +586,8 @@ def replay(data):
             from . import c10
 
             return c10.replay(data)
+        if "tasks" in inp:
+            return exact_sym_replay({k: v for k, v in inp.items() if k not in ("clause", "values")}, inp.get("values") or {})
         if "kinds" in inp:
             return const_replay({k: v for k, v in inp.items() if k not in ("clause", "values")}, inp["clause"], inp.get("values") or {})
         if inp["clause"] == "basis":
